@@ -36,6 +36,11 @@ CONTRACTS = {
     "AtLeast.atomic_propositions": {"props": ["C01", "C03", "C05", "C08", "C10"], "why": "children that are puan.variable"},
     "AtLeast.flatten": {"props": ["C01", "C03", "C10", "C15"], "why": "self + all descendants, de-duplicated, sorted"},
     "AtLeast._dependencies": {"props": ["C10"], "why": "complete edge relation: (id, ids of all children) for every compound"},
+    "AtLeast.errors": {"props": ["C10"],
+                       "why": "4 labels <-> 4 checks; cycle check = TopologicalSorter(dict(_dependencies())).prepare() with exception => True; "
+                              "definition-uniqueness checks compare the number of distinct definition keys with the number of distinct ids "
+                              "(keys are holes judged by rule E7); duplicate edge check over (parent id, child id)"},
+    "AtLeast.__eq__": {"props": ["C09"], "why": "equality used by ==; (its adequacy as a de-duplication key is judged by E7 under C10)"},
     # ---- evaluation kernel -------------------------------------------------------------------------------
     "AtLeast._equation_mm": {"props": ["C06"], "split": "sign", "why": "exact range of sign*sum over the children's box"},
     "AtLeast.equation_bounds": {"props": ["C06"], "why": "range of sign*sum - value"},
@@ -129,6 +134,35 @@ class AtLeast:
     def _dependencies(self):
         return [(self.id, [x.id for x in self.atomic_propositions] + [x.id for x in self.compound_propositions])] + \
             list(itertools.chain.from_iterable(c._dependencies() for c in self.compound_propositions))
+
+    def __eq__(self, other):
+        if not type(self) == type(other):
+            return False
+        return (self.id == other.id) & (self.equation_bounds == other.equation_bounds) & (self.value == other.value)
+
+    # ---------------------------------------------------------------- C10
+    def errors(self):
+        return list(itertools.compress(
+            [PropositionValidationError.CIRCULAR_DEPENDENCIES,
+             PropositionValidationError.AMBIVALENT_VARIABLE_DEFINITIONS,
+             PropositionValidationError.AMBIVALENT_VARIABLE_DEFINITIONS,
+             PropositionValidationError.NON_UNIQUE_SUB_PROPOSITION_SET],
+            [
+                # 1. circular dependencies: any exception of the topological sorter means "cyclic"
+                __try__(not (None == graphlib.TopologicalSorter(dict(self._dependencies())).prepare()), True),
+                # 2. every id has one variable definition: #distinct definitions == #distinct ids
+                not (len(set(__hole_key2__(v) for v in itertools.chain(
+                        (x for x in self.flatten() if issubclass(x.__class__, puan.variable)),
+                        (x.variable for x in self.flatten() if not issubclass(x.__class__, puan.variable)))))
+                     == len(set(x.id for x in self.flatten()))),
+                # 3. every compound id has one compound definition
+                not (len(set(__hole_key3__(c) for c in self.flatten() if not issubclass(c.__class__, puan.variable)))
+                     == len(set(c.id for c in self.flatten() if not issubclass(c.__class__, puan.variable)))),
+                # 4. no parent lists the same child twice
+                any(n >= 2 for n in Counter(itertools.chain.from_iterable(
+                    [__hole_key4__(x, y) for y in x.propositions]
+                    for x in self.flatten() if not issubclass(x.__class__, puan.variable))).values()),
+            ]))
 
     # ---------------------------------------------------------------- C06
     @property
